@@ -132,7 +132,7 @@ def replay_failure(prop, plan, spec, cfg, concrete, times=3, fault=None):
                 continue
             ctx = oracles.Ctx(spec, static, cfg, concrete, per_op, dict(prop=prop, tier='replay', idmap=s.idmap))
             try:
-                if plan.get('mode') == 'copy':
+                if plan.get('mode') in ('copy', 'serial'):
                     ctx.extra = engine.copy_refs(ex, concrete, per_op)
                 elif plan.get('mode') == 'fault_enum' and fault:
                     ctx.extra = dict(fault_index=fault['fault_index'], k=fault['k'],
